@@ -226,6 +226,15 @@ def probe(ctx, T):
             out["vkw"][s] = type(e).__name__
     for c in CATS:
         rc = None if c == "none" else c
+        for s in names:
+            # a stored hash of scheme s is judged by s's record for the category: the record found by identifying the hash and the one found by
+            # name are the same
+            try:
+                hd = ctx.handler(s, category=rc)
+                if ctx.identify(T[s]["standing"]) == s and ctx.needs_update(T[s]["standing"], category=rc) != (bool(hd.deprecated) or bool(hd.needs_update(T[s]["standing"]))):
+                    out["ident"][f"stale-record:{c}/{s}"] = "identified record differs from named record"
+            except Exception as e:
+                out["ident"][f"stale-record:{c}/{s}"] = type(e).__name__
         out["defaults"][c] = ctx.default_scheme(category=rc)
         for s in names:
             h = ctx.handler(s, category=rc)
@@ -285,6 +294,9 @@ def run_behaviour(chk, T, beh, rnd):
                             __import__("os").unlink(fh.name)
                     else:
                         real[i].load(text, section=section)
+                elif not d and k:
+                    # nothing configured: given as an empty dict, an empty context, the export of one, or an INI section without entries
+                    real[i].load(rnd.choice([{}, CryptContext(), CryptContext().to_dict(), CryptContext().to_string(), "[passlib]\n"]))
                 else:
                     real[i].load(d)
             elif op == "update":
@@ -320,6 +332,17 @@ def run_behaviour(chk, T, beh, rnd):
             elif op == "to_dict":
                 ARMED["on"] = False
                 exported = real[i].to_dict()
+                # the exported record belongs to the caller: scribbling over it (values included) does not reach the context
+                import copy as _copy
+                keep = _copy.deepcopy(exported)
+                for v_ in exported.values():
+                    if isinstance(v_, list):
+                        v_.append("scribble")
+                exported.clear()
+                exported = real[i].to_dict()
+                if exported != keep:
+                    got, err = "export-aliased", f"a second to_dict() after the first result was edited gives {exported}, first was {keep}"
+                    exported = keep
                 if "schemes" in exported:      # the export names the hashers; objects are handed back as objects
                     exported["schemes"] = [OBJ.get(s, s) for s in exported["schemes"]]
                 real[i] = CryptContext(**exported)
